@@ -298,9 +298,9 @@ class ExprMixin:
                 t = self.truth(v)
                 res = self.ite(t, res, v) if is_and else self.ite(t, v, res)
         except Unsupported:
-            if not self.spec_mode:
+            if not self.spec_mode and not self.truth_only:
                 return None
-            # operands of different types in a specification: only the truth value is meaningful
+            # operands of different types in a specification (or under any()/all()): only the truth value is meaningful
             ts = [self.truth(v) for v in vals]
             res = Val(BOOL, z3.And(*ts) if is_and else z3.Or(*ts))
         return [(st, res)]
